@@ -687,7 +687,7 @@ Proof.
   - by rewrite lookup_alter_ne.
 Qed.
 
-Lemma C09_spec_ignores_memo_proof s b :
+Lemma C09_spec_ignores_memo s b :
   (forall f fuel n, eval (updb s b (set b_memo f)) fuel n = eval s fuel n) /\
   (forall f fuel n, eval (updb s b (set b_cache f)) fuel n = eval s fuel n).
 Proof.
@@ -709,7 +709,7 @@ Definition denotes (s : state) (n : nid) (v : Z) : Prop := exists fuel, eval s f
 Definition denotesT (ev : nid -> option Z) (x : Z) (e : texp) (v : Z) : Prop :=
   exists fuel, evalT fuel ev x e = Some v.
 
-Lemma C11_equal_cutoff_inert_spec_proof :
+Lemma C11_equal_cutoff_inert_spec :
   (forall s n a fuel, nkind (nd s n) = KCutoff CEq -> decl (nd s n) = [a] ->
      eval s (S fuel) n = eval s fuel a)
   /\ (forall fuel ev x e, evalT (S fuel) ev x (TCut CEq e) = evalT fuel ev x e)
@@ -726,3 +726,249 @@ Proof.
     + by exists (S F).
 Qed.
 
+(** ** Erasing every equality cutoff from the bind templates of a program does not change
+    the meaning of any node *)
+Fixpoint eraseT (e : texp) : texp :=
+  match e with
+  | TMap f e => TMap f (eraseT e)
+  | TMap2 f e1 e2 => TMap2 f (eraseT e1) (eraseT e2)
+  | TCut CEq e => eraseT e
+  | TCut c e => TCut c (eraseT e)
+  | TBind cases e => TBind (map eraseT cases) (eraseT e)
+  | e => e
+  end.
+
+Definition erase_eq_templates (s : state) : state :=
+  s <| binds := (fun r => r <| b_cases := map eraseT (b_cases r) |>) <$> binds s |>.
+
+Lemma select_erase cases y : select (map eraseT cases) y = eraseT (select cases y).
+Proof.
+  unfold select. rewrite map_length. change TNil with (eraseT TNil) at 1. apply map_nth.
+Qed.
+
+Lemma evalT_erase_fwd (ev ev' : nid -> option Z) :
+  (forall n v, ev n = Some v -> ev' n = Some v) ->
+  forall F x e v, evalT F ev x e = Some v -> evalT F ev' x (eraseT e) = Some v.
+Proof.
+  intros Hev. induction F as [|F IH]; intros x e v H; [discriminate H|].
+  destruct e as [k| |m|f e|f e1 e2|c e|cases e|]; cbn [evalT eraseT] in *; try done.
+  - by apply Hev.
+  - destruct (evalT F ev x e) as [w|] eqn:E; [|discriminate H]. by rewrite (IH x e w E).
+  - destruct (evalT F ev x e1) as [w1|] eqn:E1; [|discriminate H].
+    destruct (evalT F ev x e2) as [w2|] eqn:E2; [|discriminate H].
+    by rewrite (IH x e1 w1 E1), (IH x e2 w2 E2).
+  - destruct c; cbn [evalT eraseT] in *; try done.
+    + apply (evalT_mono ev' ev' (fun _ _ h => h) F (S F)); [lia|]. by apply IH.
+    + by apply IH.
+  - destruct (evalT F ev x e) as [w|] eqn:E; [|discriminate H].
+    rewrite (IH x e w E). rewrite select_erase. by apply IH.
+Qed.
+
+Lemma evalT_erase_bwd (evf : nat -> nid -> option Z) (ev' : nid -> option Z) :
+  (forall G G' n v, (G <= G')%nat -> evf G n = Some v -> evf G' n = Some v) ->
+  (forall n v, ev' n = Some v -> exists G, evf G n = Some v) ->
+  forall F e x v, evalT F ev' x (eraseT e) = Some v -> exists F' G, evalT F' (evf G) x e = Some v.
+Proof.
+  intros Hmono Hev.
+  assert (Hup : forall F G F' G' x e v, (F <= F')%nat -> (G <= G')%nat ->
+                  evalT F (evf G) x e = Some v -> evalT F' (evf G') x e = Some v).
+  { intros F G F' G' x e v HF HG. apply evalT_mono; [|done]. intros n u. by apply Hmono. }
+  induction F as [|F IHF]; [intros e x v H; destruct (eraseT e); discriminate H|].
+  induction e as [k| |m|f e IHe|f e1 IHe1 e2 IHe2|c e IHe|cases e IHe|]; intros x v H.
+  - exists 1%nat, 0%nat. exact H.
+  - exists 1%nat, 0%nat. exact H.
+  - cbn [eraseT evalT] in H. destruct (Hev _ _ H) as [G HG]. by exists 1%nat, G.
+  - cbn [eraseT evalT] in H.
+    destruct (evalT F ev' x (eraseT e)) as [w|] eqn:E; [|discriminate H].
+    destruct (IHF e x w E) as (F1 & G1 & H1). exists (S F1), G1. cbn [evalT]. by rewrite H1.
+  - cbn [eraseT evalT] in H.
+    destruct (evalT F ev' x (eraseT e1)) as [w1|] eqn:E1; [|discriminate H].
+    destruct (evalT F ev' x (eraseT e2)) as [w2|] eqn:E2; [|discriminate H].
+    destruct (IHF e1 x w1 E1) as (F1 & G1 & H1). destruct (IHF e2 x w2 E2) as (F2 & G2 & H2).
+    exists (S (Nat.max F1 F2)), (Nat.max G1 G2). cbn [evalT].
+    rewrite (Hup F1 G1 (Nat.max F1 F2) (Nat.max G1 G2) x e1 w1) by (done || lia).
+    by rewrite (Hup F2 G2 (Nat.max F1 F2) (Nat.max G1 G2) x e2 w2) by (done || lia).
+  - destruct c; cbn [eraseT evalT] in H.
+    + destruct (IHe x v H) as (F1 & G1 & H1). by exists (S F1), G1.
+    + exists 1%nat, 0%nat. exact H.
+    + destruct (IHF e x v H) as (F1 & G1 & H1). by exists (S F1), G1.
+    + discriminate H.
+  - cbn [eraseT evalT] in H.
+    destruct (evalT F ev' x (eraseT e)) as [y|] eqn:E; [|discriminate H].
+    rewrite select_erase in H.
+    destruct (IHF e x y E) as (F1 & G1 & H1).
+    destruct (IHF (select cases y) y v H) as (F2 & G2 & H2).
+    exists (S (Nat.max F1 F2)), (Nat.max G1 G2). cbn [evalT].
+    rewrite (Hup F1 G1 (Nat.max F1 F2) (Nat.max G1 G2) x e y) by (done || lia).
+    by apply (Hup F2 G2); [lia|lia|].
+  - exists 1%nat, 0%nat. exact H.
+Qed.
+
+Lemma bd_erase s b :
+  b_lhs (bd (erase_eq_templates s) b) = b_lhs (bd s b)
+  /\ b_cases (bd (erase_eq_templates s) b) = map eraseT (b_cases (bd s b)).
+Proof.
+  unfold bd, erase_eq_templates. simpl. rewrite lookup_fmap.
+  by destruct (binds s !! b) as [[]|].
+Qed.
+
+Lemma eval_erase_fwd s : forall F n v,
+  eval s F n = Some v -> eval (erase_eq_templates s) F n = Some v.
+Proof.
+  induction F as [|F IH]; intros n v H; [discriminate H|].
+  cbn [eval] in *. cbv zeta in *.
+  change (nd (erase_eq_templates s) n) with (nd s n).
+  destruct (nkind (nd s n)) as [eqv| |f|f|f|c| |b|b]; try done.
+  - destruct (decl (nd s n)) as [|a [|? ?]]; try done.
+    destruct (eval s F a) as [w|] eqn:E; [|discriminate H]. by rewrite (IH a w E).
+  - destruct (decl (nd s n)) as [|a1 [|a2 [|? ?]]]; try done.
+    destruct (eval s F a1) as [w1|] eqn:E1; [|discriminate H].
+    destruct (eval s F a2) as [w2|] eqn:E2; [|discriminate H].
+    by rewrite (IH a1 w1 E1), (IH a2 w2 E2).
+  - destruct (mapM (eval s F) (decl (nd s n))) as [ws|] eqn:E; [|discriminate H].
+    rewrite (mapM_mono (eval s F) (eval (erase_eq_templates s) F) _ ws); [done| |done].
+    intros a w _. by apply IH.
+  - destruct (decl (nd s n)) as [|a [|? ?]]; try done. destruct c; try done; by apply IH.
+  - destruct (decl (nd s n)) as [|a [|? ?]]; try done. by apply IH.
+  - destruct (bd_erase s b) as [-> ->].
+    destruct (eval s F (b_lhs (bd s b))) as [w|] eqn:E; [|discriminate H].
+    rewrite (IH _ w E). rewrite select_erase.
+    apply (evalT_erase_fwd (eval s F)); [|done]. intros m u. by apply IH.
+Qed.
+
+Lemma mapM_bwd {A B} (evf : nat -> A -> option B) (f' : A -> option B) l bs :
+  (forall G G' a b, (G <= G')%nat -> evf G a = Some b -> evf G' a = Some b) ->
+  (forall a b, f' a = Some b -> exists G, evf G a = Some b) ->
+  mapM f' l = Some bs -> exists G, mapM (evf G) l = Some bs.
+Proof.
+  intros Hmono Hev. revert bs. induction l as [|a l IH]; intros bs H.
+  - exists 0%nat. exact H.
+  - simpl in H. destruct (f' a) as [b|] eqn:E; [|discriminate H].
+    destruct (mapM f' l) as [bs'|] eqn:E'; [|discriminate H].
+    destruct (Hev a b E) as [G1 H1]. destruct (IH bs' eq_refl) as [G2 H2].
+    exists (Nat.max G1 G2). simpl.
+    rewrite (Hmono G1 (Nat.max G1 G2) a b) by (done || lia).
+    rewrite (mapM_mono (evf G2) (evf (Nat.max G1 G2)) l bs'); [done| |done].
+    intros a' b' _. apply Hmono. lia.
+Qed.
+
+Lemma eval_erase_bwd s : forall F n v,
+  eval (erase_eq_templates s) F n = Some v -> exists F', eval s F' n = Some v.
+Proof.
+  induction F as [|F IH]; intros n v H; [discriminate H|].
+  cbn [eval] in H. cbv zeta in H.
+  change (nd (erase_eq_templates s) n) with (nd s n) in H.
+  destruct (nkind (nd s n)) as [eqv| |f|f|f|c| |b|b] eqn:Hk.
+  - exists 1%nat. cbn [eval]. cbv zeta. by rewrite Hk.
+  - exists 1%nat. cbn [eval]. cbv zeta. by rewrite Hk.
+  - destruct (decl (nd s n)) as [|a [|? ?]] eqn:Hd; try done.
+    destruct (eval (erase_eq_templates s) F a) as [w|] eqn:E; [|discriminate H].
+    destruct (IH a w E) as [F1 H1]. exists (S F1). cbn [eval]. cbv zeta. by rewrite Hk, Hd, H1.
+  - destruct (decl (nd s n)) as [|a1 [|a2 [|? ?]]] eqn:Hd; try done.
+    destruct (eval (erase_eq_templates s) F a1) as [w1|] eqn:E1; [|discriminate H].
+    destruct (eval (erase_eq_templates s) F a2) as [w2|] eqn:E2; [|discriminate H].
+    destruct (IH a1 w1 E1) as [F1 H1]. destruct (IH a2 w2 E2) as [F2 H2].
+    exists (S (Nat.max F1 F2)). cbn [eval]. cbv zeta. rewrite Hk, Hd.
+    rewrite (eval_mono s F1 (Nat.max F1 F2) a1 w1) by (done || lia).
+    by rewrite (eval_mono s F2 (Nat.max F1 F2) a2 w2) by (done || lia).
+  - destruct (mapM (eval (erase_eq_templates s) F) (decl (nd s n))) as [ws|] eqn:E; [|discriminate H].
+    destruct (mapM_bwd (eval s) _ _ _ (eval_mono s) IH E) as [G HG].
+    exists (S G). cbn [eval]. cbv zeta. by rewrite Hk, HG.
+  - destruct (decl (nd s n)) as [|a [|? ?]] eqn:Hd; try done.
+    destruct c.
+    + destruct (IH a v H) as [F1 H1]. exists (S F1). cbn [eval]. cbv zeta. by rewrite Hk, Hd.
+    + exists 1%nat. cbn [eval]. cbv zeta. by rewrite Hk, Hd.
+    + destruct (IH a v H) as [F1 H1]. exists (S F1). cbn [eval]. cbv zeta. by rewrite Hk, Hd.
+    + exists 1%nat. cbn [eval]. cbv zeta. by rewrite Hk, Hd.
+  - destruct (decl (nd s n)) as [|a [|? ?]] eqn:Hd; try done.
+    destruct (IH a v H) as [F1 H1]. exists (S F1). cbn [eval]. cbv zeta. by rewrite Hk, Hd.
+  - discriminate H.
+  - destruct (bd_erase s b) as [Hl Hc]. rewrite Hl, Hc in H.
+    destruct (eval (erase_eq_templates s) F (b_lhs (bd s b))) as [w|] eqn:E; [|discriminate H].
+    destruct (IH _ w E) as [F1 H1]. rewrite select_erase in H.
+    destruct (evalT_erase_bwd (eval s) _ (eval_mono s) IH _ _ _ _ H) as (F2 & G2 & H2).
+    exists (S (Nat.max F1 (Nat.max F2 G2))). cbn [eval]. cbv zeta. rewrite Hk.
+    rewrite (eval_mono s F1 (Nat.max F1 (Nat.max F2 G2)) _ w) by (done || lia).
+    apply (evalT_mono (eval s G2) (eval s (Nat.max F1 (Nat.max F2 G2)))) with (F := F2); [|lia|done].
+    intros m u. apply eval_mono. lia.
+Qed.
+
+Lemma C11_erase_equal_cutoff_templates s n v :
+  denotes (erase_eq_templates s) n v <-> denotes s n v.
+Proof.
+  split; intros [F H].
+  - by apply eval_erase_bwd in H.
+  - exists F. by apply eval_erase_fwd.
+Qed.
+
+(** * Non-vacuity: concrete reachable states satisfying every hypothesis of Theorem A *)
+Definition ex_ops1 : list op :=
+  [ NewVar 3 true;                       (* node 0 *)
+    NewVar 4 true;                       (* node 1 *)
+    NewMapN Sum [0%nat; 1%nat];          (* node 2 *)
+    NewCutoff CEq 2%nat;                 (* node 3 *)
+    NewBind [TMap (Aff 1 1) TX;          (* nodes 4 (lhs-change) and 5 (main), over node 3 *)
+             TOuter 3%nat;
+             TBind [TRet 5; TMap2 (Lin2 1 1 0) TX (TCut CEq (TOuter 1%nat))] (TOuter 0%nat)] 3%nat;
+    NewAlways 5%nat;                     (* node 6 *)
+    Observe 6%nat;                       (* observer 7 *)
+    Observe 3%nat;                       (* observer 8 *)
+    Stabilize [] ].
+(* a MapN input added, the bind switches to its first case *)
+Definition ex_ops2 : list op := ex_ops1 ++ [SetVar 0%nat 5; AddInput 2%nat 0%nat; Stabilize []].
+(* a MapN input removed, the bind switches to the case that is itself a bind over an outer node *)
+Definition ex_ops3 : list op := ex_ops2 ++ [SetVar 1%nat 2; RemoveInput 2%nat 0%nat; Stabilize []].
+Definition ex_state (ops : list op) : state :=
+  match run (init 256) ops with Ok s => s | _ => init 0 end.
+
+Definition ex_hyps (s : state) : bool := wfb s && closed s && templates_ok s && consistent s.
+
+(* case 1 selected: the bind returns the outer node 3 (the cutoff over the MapN) *)
+Example ex1_hypotheses_hold : ex_hyps (ex_state ex_ops1) = true.
+Proof. vm_compute. reflexivity. Qed.
+Example ex1_conclusion :
+  let s := ex_state ex_ops1 in
+  obs s !! 7%nat = Some 6%nat /\ valueOf s 6%nat = 7 /\ eval s (next s) 6%nat = Some 7
+  /\ observers_agree s = true.
+Proof. vm_compute. repeat split; reflexivity. Qed.
+
+(* case 0 selected after AddInput *)
+Example ex2_hypotheses_hold : ex_hyps (ex_state ex_ops2) = true.
+Proof. vm_compute. reflexivity. Qed.
+Example ex2_conclusion :
+  let s := ex_state ex_ops2 in
+  obs s !! 7%nat = Some 6%nat /\ valueOf s 6%nat = 4 /\ eval s (next s) 6%nat = Some 4
+  /\ obs s !! 8%nat = Some 3%nat /\ valueOf s 3%nat = 3 /\ eval s (next s) 3%nat = Some 3
+  /\ observers_agree s = true.
+Proof. vm_compute. repeat split; reflexivity. Qed.
+
+(* case 2 selected after RemoveInput: a nested bind whose own case reads an outer node through
+   an equality cutoff *)
+Example ex3_hypotheses_hold : ex_hyps (ex_state ex_ops3) = true.
+Proof. vm_compute. reflexivity. Qed.
+Example ex3_conclusion :
+  let s := ex_state ex_ops3 in
+  obs s !! 7%nat = Some 6%nat /\ valueOf s 6%nat = 7 /\ eval s (next s) 6%nat = Some 7
+  /\ rank s 6%nat = 11%nat /\ next s = 16%nat /\ observers_agree s = true.
+Proof. vm_compute. repeat split; reflexivity. Qed.
+
+(* Theorem A applied to the examples (not by computation) *)
+Lemma ex_hyps_observers_agree s : ex_hyps s = true -> observers_agree s = true.
+Proof.
+  unfold ex_hyps. intros H.
+  apply andb_true_iff in H as [H H4]. apply andb_true_iff in H as [H H3].
+  apply andb_true_iff in H as [H1 H2]. exact (C01_observers_agree_proof _ H1 H2 H3 H4).
+Qed.
+Example ex3_by_theorem : observers_agree (ex_state ex_ops3) = true.
+Proof. exact (ex_hyps_observers_agree _ ex3_hypotheses_hold). Qed.
+
+(** [templates_ok] cannot be dropped: a parity cutoff created inside a bind is history
+    dependent, [evalT] gives it no value, and so a state can be well formed, closed and
+    locally consistent while the observer's value has no from-scratch counterpart. *)
+Definition ex_parity_ops : list op :=
+  [NewVar 3 true; NewBind [TCut CParity TX] 0%nat; Observe 2%nat; Stabilize []].
+Example templates_ok_needed :
+  let s := ex_state ex_parity_ops in
+  wfb s = true /\ closed s = true /\ consistent s = true
+  /\ templates_ok s = false /\ observers_agree s = false.
+Proof. vm_compute. repeat split; reflexivity. Qed.
